@@ -294,6 +294,14 @@ theorem jsonSetters_ok : Generated.jsonSetters =
     [("JSONIndent", "indent"), ("JSONUseEnumNumbers", "useEnumNumbers"), ("JSONIncludeZeroValues", "emitZeroValues"),
      ("JSONAllowUnknownFields", "allowUnknownFields"), ("JSONAllowPartialMessages", "allowPartial")] := by decide
 
+/-- … and only the option constructors write an option field: what the wiring reads is what the caller set -/
+theorem jsonOptionWrites_ok : Generated.jsonOptionWritesElsewhere = [] := by decide
+
+/-- **no arm of the root package asks a runtime to trust its size caches** (`UseCachedSize`): the caller may have
+    changed any message of the tree since a cache entry was written (C09 / C11: every Marshal is the marshal of the
+    current contents) -/
+theorem no_cached_size_requests : Generated.cachedSizeRequests = [] := by decide
+
 /-- the gRPC codec forwards to csproto.Marshal / Unmarshal and is named "proto" -/
 theorem grpcCodec_ok : Generated.grpcCodec = ["Marshal -> Marshal", "Unmarshal -> Unmarshal", "Name = \"proto\""] := by decide
 
